@@ -136,6 +136,12 @@ class View:
         d = ep['dump']
         if d is None:
             return True
+        # an explicit scheme that has blown up (speeds thousands of times
+        # the no-load speed) is numerically meaningless even while finite
+        w0 = self.mot['w0']
+        for x in d['elems'][0]['tv'].get(SPD, []):
+            if x is not None and abs(x) > 1e4 * w0:
+                return False
         for e in d['elems']:
             for var in (POS, SPD, ACC, TQ, DTQ, LTQ):
                 for x in e['tv'].get(var, []):
